@@ -20,6 +20,7 @@ package types
 import (
 	"encoding/base64"
 	"encoding/json"
+	"fmt"
 	"reflect"
 	"time"
 )
@@ -225,9 +226,20 @@ func (c *ColumnImage) UnmarshalJSON(data []byte) error {
 	if value != nil {
 		switch JDBCType(columnType) {
 		case JDBCTypeReal: // 4 Bytes
-			actualValue = value.(float32)
+			// encoding/json decodes every number into float64
+			f, ok := value.(float64)
+			if !ok {
+				return fmt.Errorf("column %s: a number is expected for type %d, got %T", columnName, columnType, value)
+			}
+			actualValue = float32(f)
 		case JDBCTypeDecimal, JDBCTypeDouble: // 8 Bytes
-			actualValue = value.(float64)
+			// DECIMAL values are handed over by the driver as text and are stored as a JSON string
+			switch v := value.(type) {
+			case float64, string:
+				actualValue = v
+			default:
+				return fmt.Errorf("column %s: a number or its text is expected for type %d, got %T", columnName, columnType, value)
+			}
 		case JDBCTypeTinyInt: // 1 Bytes
 			actualValue = int8(value.(float64))
 		case JDBCTypeSmallInt: // 2 Bytes
